@@ -272,15 +272,17 @@ PROPS = {
         coq_targets=["Props/C16.vo"],
         harness=[dict(pkg="h_recon", bin="c16", cases={"quick": 300, "thorough": 4000},
                       checkers=["corr"], timeout=2400),
+                 dict(pkg="h_recon", bin="c16r", cases={"quick": 250, "thorough": 2500},
+                      checkers=["corr"], timeout=2400),
                  dict(pkg="h_recon", bin="c16d", cases={"quick": 400, "thorough": 6000},
                       checkers=[], timeout=2400)],
         allowed_axioms=[],
         trusted_base=[
             "the scalar wire form is modelled over byte lists: integers are mathematical integers in the union of the i64 / u64 ranges (the Rust integer kind is not on the wire), a float is its 64 bit pattern, a text is its UTF-8 bytes (validity of UTF-8 is not modelled; inputs with invalid UTF-8 are not compared)",
-            "records (attribute map + array / map / mixed body), the f32 marker, and everything the derive macro generates are NOT modelled: oracles run only the real code (h_recon/c16 for model values through MessagePack, h_recon/c16d for a battery of derived types)",
+            "records are modelled at the level of model values (attribute map + array / map / mixed body, as Value::write_with drives the writer and as the reader + Value recogniser rebuild them); the f32 marker, delegated (scalar) record bodies and everything the derive macro generates are NOT modelled: oracles run only the real code (h_recon/c16d for a battery of derived types)",
         ],
         assumptions=[
-            "theorems cover MessagePack scalars (round trip with arbitrary following input, truncation is Incomplete, injectivity); the typed <-> model <-> Recon <-> MessagePack agreement of derived and built-in Form types is oracle-checked on the real code only (partial)",
+            "theorems cover the MessagePack form of model values (round trip with arbitrary following input, injectivity; for scalars also: truncation is Incomplete); the typed <-> model <-> Recon <-> MessagePack agreement of derived and built-in Form types is oracle-checked on the real code only (partial)",
             "the derived battery is 20 fixed types (tag, rename, header, header_body, attr, body, skip, newtype, unit, tuple, generics, camel-case convention, tag field, enums, nesting, collections); other attribute combinations are not exercised",
             "whether a printed text reads back as the same model value is C09's business: the battery requires the two reading paths to agree always, and to return the original only when the text is faithful to the model",
         ],
